@@ -122,11 +122,11 @@ PBT_PROPERTY(pmerge_iters) {
         c.minn = (int)src.range(0, 40);
     }
     c.desc = src.boolean();
-    if (ty == 0) {
-        if (stable) run_it_rec_s(src, c, kind);
-        else run_it_rec_u(src, c, kind);
+    if (kind < 2) {
+        if (ty == 0) stable ? run_it_rec_s(src, c, kind) : run_it_rec_u(src, c, kind);
+        else stable ? run_it_recs_s(src, c, kind) : run_it_recs_u(src, c, kind);
     } else {
-        if (stable) run_it_recs_s(src, c, kind);
-        else run_it_recs_u(src, c, kind);
+        if (ty == 0) stable ? run_it_rec_s_b(src, c, kind) : run_it_rec_u_b(src, c, kind);
+        else stable ? run_it_recs_s_b(src, c, kind) : run_it_recs_u_b(src, c, kind);
     }
 }
